@@ -70,7 +70,12 @@ ScriptedBackend::ScriptedBackend() {
   SetValuePresolver(pPre);
   copy_common_info_to_other();
 }
-ScriptedBackend::~ScriptedBackend() {}
+ScriptedBackend::~ScriptedBackend() {
+  // the backend is going: from here on nothing may call into it any more (sig teardown ...: a signal arrives now)
+  Ev("BackendDtor");
+  RaiseAt("teardown");
+  g_model = nullptr;
+}
 
 void ScriptedBackend::Ev(const char *name) {
   if (auto f = lp()->rec) { fprintf(f, "{\"e\":\"%s\"}\n", name); fflush(f); }
